@@ -14,7 +14,7 @@ import apidoc
 import c04
 import rel
 import textfn
-from common import Check, harness, seed
+from common import Check, b64, harness, seed
 
 # "%" escapes to %25 and " " to %20: the digits that occur in escapes must be in the alphabet,
 # otherwise a literal "_25" can never meet an escaped "%"
@@ -226,6 +226,32 @@ def main(tier):
     if meta:
         x = next(iter(meta.values()))
         chk.sample({"doc": x[0]["doc"], "expected_tags": tag_projection(x[0]["cat"][0])})
+    # a Tags directive naming a tag that no TAG directive declares is rejected - also when the name is the automatic tag
+    # of an earlier untagged interaction, and wherever the method comes from (written, pasted, included)
+    method = "POST /zfriends\n  Tags @zcats\n  200 any\n"
+    base = "JSIGHT 0.3\nGET /zcats\n  200 any\n"
+    ucases = {
+        "written_after": ({"main.jst": base + method}, True),
+        "written_before": ({"main.jst": "JSIGHT 0.3\n" + method + "GET /zcats\n  200 any\n"}, True),
+        "pasted_after": ({"main.jst": base + "MACRO @zm\n(\n" + "".join("  " + x + "\n" for x in method.splitlines()) + ")\nPASTE @zm\n"}, True),
+        "macro_first_pasted_after": ({"main.jst": "JSIGHT 0.3\nMACRO @zm\n(\n" + "".join("  " + x + "\n" for x in method.splitlines()) + ")\nGET /zcats\n  200 any\nPASTE @zm\n"}, True),
+        "pasted_under_url": ({"main.jst": base + "MACRO @zm\n(\n  POST\n    Tags @zcats\n    200 any\n)\nURL /zfriends\n  PASTE @zm\n"}, True),
+        "included_after": ({"main.jst": base + "INCLUDE m.jst\n", "m.jst": method}, True),
+        "declared_control": ({"main.jst": base + "TAG @zcats\n" + method}, False),
+    }
+    uobs = harness("run", [{"id": "ut_" + k, "files": {f: b64(t) for f, t in ff.items()}, "root": "main.jst"} for k, (ff, _) in ucases.items()])
+    for k, (ff, must_reject) in ucases.items():
+        o = uobs["ut_" + k]
+        chk.evaluations += 1
+        chk.traces += 1
+        chk.nontrivial.add("undeclared:" + k)
+        if must_reject and o["outcome"] == "ok":
+            sig = {"level": "end-to-end", "what": "undeclared tag accepted", "variant": k}
+            chk.violation("a Tags directive names @zcats, which no TAG directive declares (%s): accepted | project: %s" % (k, json.dumps(ff)),
+                          {"kind": "undeclared_tag", "files": ff, "signature": sig}, sig)
+        if not must_reject and o["outcome"] != "ok":
+            sig = {"level": "end-to-end", "what": "declared tag rejected", "variant": k}
+            chk.violation("control: the declared tag is not accepted: %s" % rel.describe(o), {"kind": "undeclared_tag", "files": ff, "signature": sig}, sig)
     import pathspec
     pathspec.run(chk, tier, "C19")
     chk.rule = ("function table: all first segments <= %d over 9 characters; documents: TLC-generated with tag-related features; "
@@ -242,6 +268,11 @@ def replay(path):
         pathspec.replay(chk, "C19", rp)
         return chk.finish()
     chk.evaluations = 1
+    if rp["kind"] == "undeclared_tag":
+        o = harness("run", [{"id": "a", "files": {f: b64(t) for f, t in rp["files"].items()}, "root": "main.jst"}])["a"]
+        if o["outcome"] == "ok":
+            chk.violation("reproduced: accepted", rp, rp.get("signature"))
+        return chk.finish()
     if rp["kind"] == "tagtail":
         oo = textfn.text_rows("pathtag", ["/" + rp["first"], "/" + rp["first"] + rp["tail"]])
         if oo[0]["out"] != oo[1]["out"]:
